@@ -8,9 +8,13 @@ namespace NitroVerif.RefCount
     it took from the pool when its `Close` started) -/
 def closing (st : St) (s : Nat) : Nat := st.ths.countP (fun pc => pc == .closeDec s)
 
-/-- number of threads whose decrement reached zero and that are parked before moving `s` to the
-    dead list -/
+/-- number of threads whose decrement reached zero and that are parked before deleting `s` from the
+    live list (`CLOSE_RETIRE s`) -/
 def retiring (st : St) (s : Nat) : Nat := st.ths.countP (fun pc => pc == .closeRetire s)
+
+/-- number of threads that deleted `s` from the live list and are parked before inserting it into
+    the dead list (`CLOSE_RETIRE2 s`): `s` is in neither list -/
+def retiring2 (st : St) (s : Nat) : Nat := st.ths.countP (fun pc => pc == .closeRetire2 s)
 
 /-- references on `s` that are held and not being closed right now (ghost pool) -/
 def held (st : St) (s : Nat) : Nat := (getS st s).held
